@@ -884,7 +884,15 @@ fn opaque_only(msg: &[u8]) -> bool {
         for _ in 0..counts[0] { match Question::<NameBuf>::split_message_bytes(c, off) { Ok((_, e)) => off = e, Err(_) => return true } }
         for s in 1..4 { for _ in 0..counts[s] {
             match Record::<NameBuf, &UnparsedRecordData>::split_message_bytes(c, off) {
-                Ok((r, e)) => { off = e; if KNOWN.contains(&r.rtype.code.get()) { return false; } }
+                Ok((r, e)) => {
+                    off = e;
+                    let t = r.rtype.code.get();
+                    if KNOWN.contains(&t) { return false; }
+                    // an OPT record (possibly produced by a shifted interpretation of other octets) whose
+                    // options are not well framed: the new codec checks the framing, the old iteration does not
+                    let rd: &[u8] = r.rdata;
+                    if t == 41 && <&Opt>::parse_bytes(rd).is_err() { return false; }
+                }
                 Err(_) => return true,
             }
         } }
@@ -1015,6 +1023,149 @@ fn mparse_cases(cx: &mut Ctx, rng: &mut Rng, scale: usize) {
             }
             mparse_case(cx, &x, "mparse:counts");
         }
+    }
+}
+
+// ------------------------------------------------------------ uncompressed names, typed RDATA
+
+/// the uncompressed (flat) name parsers of the new API - `<&Name>`, NameBuf, RevNameBuf
+/// parse_bytes / split_bytes - against the old flat parser Name::from_octets, and T2 kind `flat`
+fn flat_case(cx: &mut Ctx, b: &[u8], kind: &str) {
+    use domain::new::base::wire::SplitBytes;
+    cx.idx += 1;
+    if !cx.out.wants(cx.idx) { return; }
+    let case = format!("flat {}", hex(b));
+    cx.out.begin(&case);
+    let bb = b.to_vec();
+    let r = catch(move || {
+        let a = <&Name>::split_bytes(&bb).map(|(n, rest)| (n.as_bytes().to_vec(), rest.len())).ok();
+        let a2 = NameBuf::split_bytes(&bb).map(|(n, rest)| (n.as_bytes().to_vec(), rest.len())).ok();
+        let p1 = <&Name>::parse_bytes(&bb).map(|n| n.as_bytes().to_vec()).ok();
+        let p2 = NameBuf::parse_bytes(&bb).map(|n| n.as_bytes().to_vec()).ok();
+        let rv = RevNameBuf::parse_bytes(&bb).ok();
+        let p3 = rv.as_ref().and_then(|n| unreverse(n.as_bytes()));
+        // the conversion re-parses; a panic there is reported on its own below
+        let conv = match rv { None => Some(None), Some(n) => catch(move || { let nb: NameBuf = n.into(); nb.as_bytes().to_vec() }).ok().map(Some) };
+        (a, a2, p1, p2, p3, conv)
+    });
+    let old_exact = |x: &[u8]| OldName::from_octets(x.to_vec()).is_ok();
+    match r {
+        Err(p) => { cx.out.case(&case, "Panic", true, kind); cx.verdict(false, "panic_new", &case, &p); }
+        Ok((a, a2, p1, p2, p3, conv)) => {
+            let obs = match &a { Some((w, rl)) => format!("Ok {} {}", hex(w), rl), None => "Err".to_string() };
+            cx.out.case(&case, &obs, a.is_some(), kind);
+            cx.verdict(a == a2, "new_flat_name_mismatch", &case, &format!("<&Name>::split_bytes {:?} NameBuf::split_bytes {:?}", a, a2));
+            cx.verdict(conv.is_some(), "panic_new", &case, "NameBuf::from(RevNameBuf) panicked");
+            let conv = conv.unwrap_or(p3.clone());
+            cx.verdict(p1 == p2 && p2 == p3 && p3 == conv, "new_flat_name_mismatch", &case, &format!("parse_bytes: &Name {:?} NameBuf {:?} RevNameBuf {:?} NameBuf::from(RevNameBuf) {:?}", p1.as_ref().map(|x| hex(x)), p2.as_ref().map(|x| hex(x)), p3.as_ref().map(|x| hex(x)), conv.as_ref().map(|x| hex(x))));
+            // exact parse: both codecs accept the same octet strings as a name
+            let o = old_exact(b);
+            if o != p1.is_some() { cx.verdict(false, if o { "accept_reject_mismatch_flat_name_old_accepts" } else { "accept_reject_mismatch_flat_name_new_accepts" }, &case, &format!("old Name::from_octets accepts={} new <&Name>::parse_bytes accepts={} ({} octets)", o, p1.is_some(), b.len())); }
+            else { cx.verdict(p1.as_ref().map_or(true, |w| w == b), "content_mismatch", &case, "flat name differs from its octets"); }
+            // split: the prefix the new parser takes is a name for the old parser
+            if let Some((w, _)) = &a { cx.verdict(old_exact(w), "accept_reject_mismatch_flat_name_new_accepts", &case, "prefix taken by split_bytes is not a name for the old codec"); }
+        }
+    }
+}
+
+fn flat_cases(cx: &mut Ctx, rng: &mut Rng, scale: usize) {
+    for total in 250usize..=258 { for fill in [b'x', 0x01] { flat_case(cx, &wire(&name_of_len(total, fill)), "flat:len"); let mut w = wire(&name_of_len(total, fill)); w.extend_from_slice(&[1, 2]); flat_case(cx, &w, "flat:len"); } }
+    flat_case(cx, &[0], "flat:len"); flat_case(cx, &[], "flat:len"); flat_case(cx, &[0xc0, 0x0c], "flat:len"); flat_case(cx, &[1, b'a', 0xc0, 0], "flat:len");
+    for _ in 0..200 * scale {
+        let mut w = if rng.chance(1, 3) { wire(&name_of_len(rng.range(240, 258) as usize, b'k')) } else { wire(&rand_name(rng)) };
+        match rng.below(6) {
+            0 => { let i = rng.below(w.len() as u64) as usize; w[i] = w[i].wrapping_add(1); }
+            1 => { let k = rng.below(w.len() as u64 + 1) as usize; w.truncate(k); }
+            2 => { let i = rng.below(w.len() as u64) as usize; w[i] = *rng.pick(&[0x40u8, 0x80, 0xc0, 0x3f, 0]); }
+            3 => { let k = rng.below(4) as usize; w.extend(rng.bytes(k)); }
+            _ => {}
+        }
+        flat_case(cx, &w, "flat:random");
+    }
+}
+
+/// a name inside RDATA: written out, or some leading labels and a pointer to the question name
+#[derive(Clone)]
+struct RdName { bytes: Vec<u8>, full: Vec<u8> }
+
+fn rd_name(rng: &mut Rng, qname: &[Vec<u8>], qpos: usize, allow_ptr: bool, long: bool) -> RdName {
+    if long { let n = name_of_len(rng.range(253, 256) as usize, b'd'); let w = wire(&n); return RdName { bytes: w.clone(), full: w }; }
+    let lead: Vec<Vec<u8>> = (0..rng.below(3)).map(|_| rand_small(rng)).collect();
+    if allow_ptr && rng.chance(2, 3) {
+        let mut b = vec![]; for l in &lead { b.push(l.len() as u8); b.extend_from_slice(l); }
+        b.push(0xc0 | (qpos >> 8) as u8); b.push(qpos as u8);
+        let mut all = lead.clone(); all.extend_from_slice(qname);
+        RdName { bytes: b, full: wire(&all) }
+    } else { let w = wire(&lead); RdName { bytes: w.clone(), full: w } }
+}
+
+/// records of the types both codecs know whose RDATA carries domain names, read through the new
+/// dispatcher RecordData (what MessageParser uses) and through the old typed record data
+fn typed_name_case(cx: &mut Ctx, rng: &mut Rng) {
+    use domain::rdata::{Cname as OCname, Dname as ODname, Mx as OMx, Ns as ONs, Ptr as OPtr, Rp as ORp, Soa as OSoa, Srv as OSrv};
+    cx.idx += 1;
+    if !cx.out.wants(cx.idx) { return; }
+    let qname: Vec<Vec<u8>> = vec![b"example".to_vec(), b"org".to_vec()];
+    let mut m = header(1, 1, 0, 0);
+    let qpos = m.len(); m.extend_from_slice(&wire(&qname)); m.extend_from_slice(&[0, 1, 0, 1]);
+    let pos = m.len();
+    m.extend_from_slice(&[0xc0, qpos as u8]);
+    // (type, names decompressed by both codecs?)  SRV and DNAME carry their name uncompressed
+    let (t, compressible): (u16, bool) = *rng.pick(&[(2u16, true), (5, true), (12, true), (15, true), (6, true), (17, true), (33, false), (39, false)]);
+    let long = rng.chance(1, 6);
+    let n1 = rd_name(rng, &qname, qpos, compressible, long);
+    let n2 = rd_name(rng, &qname, qpos, compressible, false);
+    let mut rd = vec![];
+    match t {
+        15 => { rd.extend_from_slice(&[0, 10]); rd.extend_from_slice(&n1.bytes); }
+        6 => { rd.extend_from_slice(&n1.bytes); rd.extend_from_slice(&n2.bytes); rd.extend_from_slice(&[0, 0, 0, 1, 0, 0, 0, 2, 0, 0, 0, 3, 0, 0, 0, 4, 0, 0, 0, 5]); }
+        17 => { rd.extend_from_slice(&n1.bytes); rd.extend_from_slice(&n2.bytes); }
+        33 => { rd.extend_from_slice(&[0, 1, 0, 2, 0, 53]); rd.extend_from_slice(&n1.bytes); }
+        _ => rd.extend_from_slice(&n1.bytes),
+    }
+    let two = t == 6 || t == 17;
+    m.extend_from_slice(&t.to_be_bytes()); m.extend_from_slice(&[0, 1, 0, 0, 0, 60]); m.extend_from_slice(&(rd.len() as u16).to_be_bytes()); m.extend_from_slice(&rd);
+    let want: Vec<Vec<u8>> = if two { vec![n1.full.clone(), n2.full.clone()] } else { vec![n1.full.clone()] };
+    let tag = format!("typed type={} {} {}", t, hex(&m), pos);
+    cx.out.begin(&tag);
+    cx.out.oracle_case(&tag, true, "typed-names");
+    let mm = m.clone();
+    let old: Result<Vec<Vec<u8>>, bool> = flat(catch(move || {
+        let mut p = Parser::from_ref(&mm[..]); p.seek(pos).map_err(|_| ())?;
+        let r = ParsedRecord::parse(&mut p).map_err(|_| ())?;
+        macro_rules! one { ($ty:ty, $f:ident) => {{ let x = r.to_record::<$ty>().map_err(|_| ())?.ok_or(())?; vec![old_wire(x.data().$f())] }}; }
+        Ok(match t {
+            2 => one!(ONs<ParsedName<&[u8]>>, nsdname), 5 => one!(OCname<ParsedName<&[u8]>>, cname), 12 => one!(OPtr<ParsedName<&[u8]>>, ptrdname),
+            15 => one!(OMx<ParsedName<&[u8]>>, exchange), 33 => one!(OSrv<ParsedName<&[u8]>>, target), 39 => one!(ODname<ParsedName<&[u8]>>, dname),
+            6 => { let x = r.to_record::<OSoa<ParsedName<&[u8]>>>().map_err(|_| ())?.ok_or(())?; vec![old_wire(x.data().mname()), old_wire(x.data().rname())] }
+            _ => { let x = r.to_record::<ORp<ParsedName<&[u8]>>>().map_err(|_| ())?.ok_or(())?; vec![old_wire(x.data().mbox()), old_wire(x.data().txt())] }
+        })
+    }));
+    let mm = m.clone();
+    let new: Result<Vec<Vec<u8>>, bool> = flat(catch(move || {
+        let (r, _) = Record::<NameBuf, RecordData<'_, NameBuf>>::split_message_bytes(&mm[12..], pos - 12).map_err(|_| ())?;
+        Ok(match &r.rdata {
+            RecordData::Ns(x) => vec![x.server.as_bytes().to_vec()], RecordData::CName(x) => vec![x.name.as_bytes().to_vec()],
+            RecordData::Ptr(x) => vec![x.name.as_bytes().to_vec()], RecordData::Mx(x) => vec![x.exchange.as_bytes().to_vec()],
+            RecordData::Soa(x) => vec![x.mname.as_bytes().to_vec(), x.rname.as_bytes().to_vec()],
+            RecordData::Rp(x) => vec![x.mailbox.as_bytes().to_vec(), x.texts.as_bytes().to_vec()],
+            RecordData::Srv(x) => vec![x.name.as_bytes().to_vec()], RecordData::DName(x) => vec![x.name.as_bytes().to_vec()],
+            _ => return Err(()),
+        })
+    }));
+    // the same record through the whole-message iterator
+    let mm = m.clone();
+    let via_parser = catch(move || { let mut ok = true; if let Ok(p) = MessageParser::new(&mm) { for it in p { if it.is_err() { ok = false; } } } else { ok = false; } ok });
+    match (&old, &new) {
+        (Err(true), _) => cx.verdict(false, "panic_old", &tag, "old typed record data parse panicked"),
+        (_, Err(true)) => cx.verdict(false, "panic_new", &tag, "new RecordData parse panicked"),
+        (Ok(a), Ok(b)) => {
+            cx.verdict(a == b && a.iter().map(|x| lower(x)).collect::<Vec<_>>() == want.iter().map(|x| lower(x)).collect::<Vec<_>>(), "content_mismatch", &tag, &format!("names in RDATA: old {:?} new {:?} written {:?}", a, b, want));
+            cx.verdict(matches!(via_parser, Ok(true)), "accept_reject_mismatch_typed_rdata_old_accepts", &tag, "Record::split_message_bytes reads the record, MessageParser does not");
+        }
+        (Err(false), Err(false)) => cx.verdict(true, "", "", ""),
+        (a, b) => cx.verdict(false, if a.is_ok() { "accept_reject_mismatch_typed_rdata_old_accepts" } else { "accept_reject_mismatch_typed_rdata_new_accepts" }, &tag,
+            &format!("type {}: old typed parse ok={} new RecordData parse ok={}", t, a.is_ok(), b.is_ok())),
     }
 }
 
@@ -1314,6 +1465,8 @@ fn main() {
         cx.name_case(&m[..end], rd, "cname", false);
     }
     mparse_cases(&mut cx, &mut rng, scale);
+    flat_cases(&mut cx, &mut rng, scale);
+    for _ in 0..400 * scale { typed_name_case(&mut cx, &mut rng); }
     // (2) hand-made compressed messages, all name positions and some others
     for _ in 0..500 * scale {
         let (m, np) = handmade(&mut rng);
